@@ -128,6 +128,8 @@ def py_leaf(l):
         return f"Data(until_marker={py_regex(l[1])}, include_delimiter={l[2]}, default={py_value(l[3])})"
     if k == 'deos':
         return f"Data(until_marker=re.compile(b'$'), default={py_value(l[1])})"
+    if k == 'dregex_raw':      # any python regular expression: outside the model (implementation-only groups)
+        return f"Data(until_marker=re.compile({l[1]!r}), include_delimiter={l[2]}, default=b'')"
     raise ValueError(l)
 
 
